@@ -143,6 +143,7 @@ STD_RULES = [
     [r'\b(\w+)\.back\(\)', r'\1[\1_size - 1]', '*'],
     [r'\b(\w+)\.front\(\)', r'\1[0]', '*'],
     # rule 6: structured binding of a std::pair<bool, long long> returned by a call
+    [r'\b(?:const )?auto &?\[(\w+), (\w+)\] = ([\w.>-]+\[[^\];]+\]);', r'__auto_type verif_sb_\1 = \3; __auto_type \1 = verif_sb_\1.first; __auto_type \2 = verif_sb_\1.second;', '*'],
     [r'\bauto \[(\w+), (\w+)\] = ((?:\w+_)?(?:valueOn\w+|evaluatePlacement)\([^;]*\));', r'Pair_bool_longlong verif_p_\1 = \3; bool \1 = verif_p_\1.first; long long \2 = verif_p_\1.second;', '*'],
     [r'\bauto \[(\w+), (\w+)\] = ((?:\w+_)?attemptPlacement\([^;]*\));', r'Pair_bool_int verif_p_\1 = \3; bool \1 = verif_p_\1.first; int \2 = verif_p_\1.second;', '*'],
     # `auto x = e;` and `const auto &x = e;` (read-only alias) -> GNU __auto_type (a non-const `auto &` is NOT lowered)
